@@ -99,6 +99,8 @@ func genUpload(t *rapid.T, withGaps bool) upScript {
 			f.Size = rapid.IntRange(1, 3).Draw(t, "tiny")
 		case 1:
 			f.Size = cs * rapid.IntRange(1, 3).Draw(t, "mult")
+		case 2: // many chunks: several separate gaps become likely
+			f.Size = cs*rapid.IntRange(4, 9).Draw(t, "mult_many") - rapid.IntRange(0, cs-1).Draw(t, "short_tail")
 		default:
 			f.Size = rapid.IntRange(1, 3*cs).Draw(t, "size")
 		}
@@ -173,10 +175,34 @@ func genUpload(t *rapid.T, withGaps bool) upScript {
 					}
 				}
 				if rapid.IntRange(0, 4).Draw(t, "resend") != 0 {
-					for _, r := range runs {
-						emit(r)
+					// one or several retransmission rounds: each resends the missing ranges in any order, some of them
+					// in two pieces, some are lost again and wait for the next round; every round ends with a 0x1212
+					pending := runs
+					for round := 0; len(pending) > 0 && round < 4; round++ {
+						if len(pending) > 1 {
+							pending = rapid.Permutation(pending).Draw(t, "resend_order")
+						}
+						var later []chunkRef
+						for k, r := range pending {
+							if k > 0 && round < 3 && rapid.IntRange(0, 3).Draw(t, "lost_again") == 0 {
+								later = append(later, r)
+								continue
+							}
+							if r.ln >= 2 && rapid.IntRange(0, 3).Draw(t, "in_two_pieces") == 0 {
+								cut := rapid.IntRange(1, r.ln-1).Draw(t, "piece")
+								a, b := chunkRef{r.file, r.off, cut}, chunkRef{r.file, r.off + cut, r.ln - cut}
+								if rapid.Bool().Draw(t, "pieces_swapped") {
+									a, b = b, a
+								}
+								emit(a)
+								emit(b)
+							} else {
+								emit(r)
+							}
+						}
+						s.Items = append(s.Items, upItem{Kind: "1212", File: fi})
+						pending = later
 					}
-					s.Items = append(s.Items, upItem{Kind: "1212", File: fi})
 				}
 			}
 		}
